@@ -30,7 +30,7 @@ fi
 echo "demo_with_rc=$RC_WITH demo_without_rc=$RC_WITHOUT suite_rc=$RC_SUITE"
 cd /verif
 # the check runs against the agent's worktree (change applied), never against /repo
-VERIF_REPO=$WT ./check $PROP --tier quick > /tmp/mut/$ID/check.log 2>&1; RC_CHECK=$?
+VERIF_REPO=$WT timeout 1800 ./check $PROP --tier quick > /tmp/mut/$ID/check.log 2>&1; RC_CHECK=$?
 echo "check_rc=$RC_CHECK  $(grep -c VIOLATION /tmp/mut/$ID/check.log) VIOLATION lines; $(tail -1 /tmp/mut/$ID/check.log)"
 mkdir -p /verif/seeded/$ID
 cp /tmp/mut/$ID/src.diff /verif/seeded/$ID/patch.diff
